@@ -875,3 +875,14 @@ M('tw-cli-store-renamed', ['C13', 'C20', 'C05', 'C11'], CLI, "    input_store = 
   "    store = inputs.InputStore(args.input_file)\n    prompt_fn = prompt_input if args.prompt_missing else None\n    s = solver.Solver(store, forms.available_forms[args.year], prompt=prompt_fn)\n", None,
   'the store variable of the CLI renamed', expect='silent', more=[(CLI, "            input_store.write(args.input_file)\n", "            store.write(args.input_file)\n")])
 M('tw-meet-with-augmented-assignment', ['C01', 'C06'], S, "        self._met.append(dependency_name)\n", "        self._met += [dependency_name]\n", None, 'meet() written with +=', expect='silent')
+M('tw-value-store-get-with-membership-test', ['C01', 'C03', 'C04', 'C06', 'C12'], VA, "        try:\n            return self.values[key]\n        except KeyError as ke:\n            raise UnmetDependency(key) from ke\n",
+  "        if key not in self.values:\n            raise UnmetDependency(key)\n        return self.values[key]\n", None, 'the read of the value store written with a membership test instead of try/except', expect='silent')
+M('tw-to-config-section-in-a-local', ['C03', 'C04', 'C14'], VA, "            if form_name not in config:\n                config[form_name] = {}\n            config[form_name][field_name] = field.to_string(value)\n",
+  "            text = field.to_string(value)\n            if form_name not in config:\n                config[form_name] = {}\n            config[form_name][field_name] = text\n", None, 'the text of a solved value kept in a local before it is written', expect='silent')
+M('tw-filler-reads-the-section-once', ['C14', 'C19', 'C18'], PF, "        for field_name in self._solution[form_name]:\n            full_name = f'{form_name}.{field_name}'\n            string = self._solution[form_name][field_name]\n",
+  "        section = self._solution[form_name]\n        for field_name in section:\n            full_name = f'{form_name}.{field_name}'\n            string = section[field_name]\n", None, 'the section of the solution kept in a local while it is read back', expect='silent')
+M('tw-fdf-lines-with-a-comprehension', ['C19', 'C18'], PF, "        lines = []\n        for k, v in data.items():\n            lines.append(f'<< /T ({_escape_fdf_string(k)}) /V ({_escape_fdf_string(v)}) >>')\n",
+  "        lines = [f'<< /T ({_escape_fdf_string(k)}) /V ({_escape_fdf_string(v)}) >>' for k, v in data.items()]\n", None, 'the form-data lines built with a comprehension', expect='silent')
+M('tw-typed-field-answer-renamed', ['C12', 'C03', 'C10'], FI, "        v = self._value(inputs, values)\n        if v is None or isinstance(v, str) and v.strip() == \"\":\n            return self._empty_value\n        elif type(v) is not self._type:\n            raise TypeError(f'Field named {self.name()} expected to produce type {self._type}, but found {type(v)}.')\n        return v\n",
+  "        answer = self._value(inputs, values)\n        if answer is None or isinstance(answer, str) and answer.strip() == \"\":\n            return self._empty_value\n        if type(answer) is not self._type:\n            raise TypeError(f'Field named {self.name()} expected to produce type {self._type}, but found {type(answer)}.')\n        return answer\n", None,
+  'the answer of the definition renamed and the elif written as if', expect='silent')
